@@ -17,6 +17,9 @@ SFTPAttributes() must have an empty attr and pack to flags 0; checked up front (
 piped through the model) and again on every case (a new object stays empty, a built object holds exactly its own
 pairs, a decoded object has no foreign keys).  Re-use of one object (build or decode set 1, pack, change the fields to set 2, pack again): the second encoding must
 be that of a fresh object with set 2's fields (pure model) and decode to exactly set 2 with set 2's flags.
+Observer purity: between two packs of one object, str / repr / asbytes / _debug_str / from_stat / == / Message.add_string
+must leave every field (None included) and the encoding unchanged.  End to end: server list_folder() -> NAME reply ->
+client listdir_attr() with every field independently absent; decoded == what the server interface returned.
 Reporting is bounded (Budget): at most MAX_FAILS failures and
 MAX_DISAGREE disagreements are recorded with clipped details, and the run stops early once objects alias.
 """
@@ -498,6 +501,74 @@ def run(ctx):
         elif got != want or msg.get_remainder():
             budget.fail("roundtrip:after-reuse", case, "sent %r decoded %r" % (want, got))
 
+    # ---- observer purity: str / repr / asbytes / _debug_str / from_stat / comparison between two packs of ONE object
+    # must leave the encoding (and every field, None included) unchanged: the model's pack depends on the fields only
+    # and observers do not change fields.
+    import os as _os
+
+    st_here = _os.stat(".")
+    OBSERVERS = [("str", lambda o, x: str(o)), ("repr", lambda o, x: repr(o)), ("asbytes", lambda o, x: o.asbytes()),
+                 ("_debug_str", lambda o, x: o._debug_str()), ("from_stat", lambda o, x: A.from_stat(st_here, "f")),
+                 ("==", lambda o, x: (o == x, o != x)), ("add_string", lambda o, x: Message().add_string(o))]
+    n_obs = 0 if budget.abort else (8000 if ctx.thorough else 700)
+    obs_cases = [rng.choice(wf) for _ in range(n_obs)]
+    obs_cases[:64] = [c for c in cases if c.tag == "grid"][:448:7]  # every presence combination at least once
+    model_obs = ctx.driver("C33", [c.pack_req() for c in obs_cases])
+    obs_fails = 0
+    for k, c in enumerate(obs_cases):
+        if budget.abort or obs_fails >= 12:  # verdict settled for this phase; keep the budget for the other routes
+            break
+        route = "decode" if k % 2 else "build"
+        m0 = Message()
+        c.build(A)._pack(m0)
+        wire0 = m0.asbytes()
+        obj = A._from_msg(Message(wire0)) if route == "decode" else c.build(A)
+        if k % 3 == 0:
+            obj.filename = "name-%d" % k
+        other = c.build(A)
+        chosen = [rng.choice(OBSERVERS) for _ in range(rng.randrange(1, 4))]
+        if k < len(OBSERVERS) * 8:
+            chosen = [OBSERVERS[k % len(OBSERVERS)]]
+        before = ([obj.st_size, obj.st_uid, obj.st_gid, obj.st_mode, obj.st_atime, obj.st_mtime], list(obj.attr.items()))
+        ran = []
+        for nm, fn in chosen:
+            try:
+                fn(obj, other)
+                ran.append(nm)
+            except Exception as e:  # rendering odd values is not this property's subject
+                ctx.dist("observer-raises:%s:%s" % (nm, type(e).__name__))
+        after = ([obj.st_size, obj.st_uid, obj.st_gid, obj.st_mode, obj.st_atime, obj.st_mtime], list(obj.attr.items()))
+        m1 = Message()
+        obj._pack(m1)
+        wire1 = m1.asbytes()
+        ctx.case(("observers", route, tuple(ran), c.pack_req()), True)
+        for nm in ran:
+            ctx.dist("observer:" + nm)
+        case = {"step1": "%s %s" % (route, c.describe()), "step2": "call %s on it" % ", ".join(ran), "step3": "pack it"}
+        if model_obs is not None and model_obs[k] != hx(wire1):
+            budget.disagree("pack after observers (the model's pack depends on the fields only)", case, model_obs[k],
+                            hx(wire1))
+        if after != before or wire1 != wire0:
+            names = ["size", "uid", "gid", "mode", "atime", "mtime"]
+            changed = [n_ for n_, x_, y_ in zip(names, before[0], after[0]) if x_ != y_ or type(x_) is not type(y_)]
+            culprit = None
+            for nm, fn in chosen:  # name the observer: each one alone on a fresh copy
+                probe_ = c.build(A)
+                snap_ = (probe_.st_size, probe_.st_uid, probe_.st_gid, probe_.st_mode, probe_.st_atime, probe_.st_mtime,
+                         list(probe_.attr.items()))
+                try:
+                    fn(probe_, other)
+                except Exception:
+                    continue
+                if snap_ != (probe_.st_size, probe_.st_uid, probe_.st_gid, probe_.st_mode, probe_.st_atime,
+                             probe_.st_mtime, list(probe_.attr.items())):
+                    culprit = nm
+                    break
+            obs_fails += 1
+            budget.fail("observer-changes-attributes:" + (culprit or "sequence"), case,
+                        "fields changed: %s (%r -> %r); encoding %s -> %s" % (
+                            changed or "-", before[0], after[0], wire0.hex(), wire1.hex()))
+
     # ---- malformed stream: arbitrary and mutated bytes
     for _ in range(0 if budget.abort else n_bad):
         r = rng.random()
@@ -577,6 +648,34 @@ def run(ctx):
                 budget.fail("roundtrip:extended" if g[0] == want[0] else "roundtrip:session", c.describe(),
                          "%s: sent %r received %r" % (direction, want, g))
 
+    # ---- end to end: server list_folder() -> NAME reply -> client listdir_attr(), every field independently absent
+    n_dir = 0 if (ctx.fails and budget.abort) else (1200 if ctx.thorough else 160)
+    grid = [c for c in cases if c.tag == "grid" and c.well_formed()]
+    dir_cases = [grid[(k * 14) % len(grid)] for k in range(min(32, n_dir))] + \
+        [rng.choice(wf) for _ in range(max(n_dir - 32, 0))]
+    if dir_cases:
+        try:
+            listed = lib_sftp.listdir_roundtrip(dir_cases)
+        except lib_sftp.SessionError as e:
+            from pv.core import InfraError
+            raise InfraError("sftp loopback session (listdir): %s" % e)
+        for i, c in enumerate(dir_cases):
+            ctx.case(("listdir", i, c.pack_req()), True)
+            ctx.dist("listdir-entry")
+            want = ([None if v is None else int(v) for v in c.fields()], [(asb(k), asb(v)) for k, v in c.ext])
+            got = listed.get(i)
+            case = {"server list_folder() returns": c.describe(), "route": "READDIR -> NAME -> listdir_attr"}
+            if got is None:
+                budget.fail("listdir:entry-missing", case, "entry e%d did not arrive" % i)
+                continue
+            g = ([got.st_size, got.st_uid, got.st_gid, got.st_mode, got.st_atime, got.st_mtime], list(got.attr.items()))
+            if g != want:
+                names = ["size", "uid", "gid", "mode", "atime", "mtime"]
+                diff = [n_ for n_, x_, y_ in zip(names, want[0], g[0]) if x_ != y_]
+                absent_to_present = [n_ for n_, x_, y_ in zip(names, want[0], g[0]) if x_ is None and y_ is not None]
+                budget.fail("listdir:absent-field-comes-back-present" if absent_to_present else "listdir:fields-differ", case,
+                            "fields %s: server returned %r, client decoded %r (flags %#x)" % (diff or "attr", want, g, got._flags))
+
 
 META = {
     "claimed": True,
@@ -589,7 +688,10 @@ META = {
               "_pack never raises on such input (pack_total). Tied to sftp_attr.py by generated constants and "
               "byte-exact differential runs of _pack/_from_msg (valid, out-of-range, malformed streams) and "
               "through a real client/server SFTP session on every check; sequences of pack/unpack in one process are "
-              "compared with the (pure) model and instances are checked for independence (no shared attr dict)."),
+              "compared with the (pure) model and instances are checked for independence (no shared attr dict); one object "
+              "packed, re-filled and packed again, and packed / observed (str, repr, asbytes, _debug_str, from_stat, ==, "
+              "add_string) / packed again must encode its current fields only; server list_folder -> NAME -> client "
+              "listdir_attr returns each entry field by field with None preserved."),
     "note": ("Trusted: Lean kernel + 3 standard axioms; struct.pack/unpack (modelled as big-endian digits), CPython "
              "dict order and RHS-before-target evaluation; the harness. Half-present pairs (uid without gid) cannot "
              "be expressed on the wire: _pack transmits normalize(a) (theorems flags_normalize, pack_normalize; "
@@ -608,6 +710,22 @@ def replay(data):
     from pv.core import unhx
 
     d = data["case"]
+    sig = data.get("signature") or ""
+    if sig.startswith("observer-changes-attributes") or sig.startswith("listdir:"):
+        # fresh process: a mode-only set, rendered as text by every observer, must still encode as flags 4 + mode
+        bad = []
+        for nm, fn in [("str", str), ("repr", repr), ("asbytes", lambda o: o.asbytes()),
+                       ("_debug_str", lambda o: o._debug_str()), ("add_string", lambda o: Message().add_string(o))]:
+            o = Case(mode=0o644).build(A)
+            o.filename = "f"
+            fn(o)
+            m = Message()
+            o._pack(m)
+            if m.asbytes() != struct.pack(">II", 4, 0o644) or (o.st_size, o.st_uid, o.st_gid) != (None, None, None):
+                bad.append("%s -> size/uid/gid %r, encoding %s" % (nm, (o.st_size, o.st_uid, o.st_gid), m.asbytes().hex()))
+        print("mode-only set after each observer: %s\n-> %s" % (bad or "unchanged (00000004000001a4)",
+                                                                "FAILS" if bad else "holds"))
+        return 1 if bad else 0
     if data.get("signature") in ("flags-stale-after-reuse", "roundtrip:after-reuse"):
         # fresh process: decode a full set, clear everything but the mode on that object, pack again
         full = Case(size=5, uid=1, gid=2, mode=0o644, atime=3, mtime=4, ext=[(b"k", b"v")])
